@@ -149,6 +149,52 @@ fn one_instance(rng: &mut Rng, thorough: bool) -> Value {
            "result": r, "pan": 0, "desc": desc})
 }
 
+/// Decisions over VERY LARGE amounts (a sum resource of 2^26 .. 2^30 units, requests of about half of it plus a little):
+/// every task fits alone, two do not - by less than what a 32-bit float can tell apart.  Second component of every
+/// vector (requests, totals, free) is the large resource in UNITS (TLC's integers are 32-bit), first is cpus in 1/10000.
+fn big_instance(rng: &mut Rng) -> Value {
+    let k = [26u32, 28, 30][rng.below(3)];
+    let size: u32 = 1 << k;
+    let ulp_half = 1u32 << (k - 1 - 23 - 1).max(0);   // half an ulp of a float near size/2
+    let delta = 1 + rng.below(ulp_half.max(2) as usize - 1) as u32;
+    let req = size / 2 + delta;
+    let n_tasks = 2 + rng.below(3);
+    let server = SimServer::new("uid".into(), WorkerId::new(0), SchedulerConfig { proactive_filling_reserve: 1000, proactive_filling_max: 0, mip_time_limit: Duration::from_secs(20) });
+    server.server_ref().set_client_events(Box::new(NoEvents));
+    let mut server = server;
+    let now = std::time::Instant::now();
+    let mut cfg = config(4, 0, 0);
+    cfg.resources = ResourceDescriptor::new(vec![ResourceDescriptorItem::range("cpus", 0, 3), ResourceDescriptorItem::sum("gpus", size)], Default::default());
+    let (wid, _, _) = server.connect_worker(cfg, now);
+    let mut resources = smallvec::SmallVec::new();
+    resources.push(ResourceRequestEntry { resource: "cpus".into(), policy: AllocationRequest::Compact(ResourceAmount::new_units(1)) });
+    resources.push(ResourceRequestEntry { resource: "gpus".into(), policy: AllocationRequest::Compact(ResourceAmount::new_units(req)) });
+    let rqv = ResourceRequestVariants::new_simple(ResourceRequest { n_nodes: 0, resources, min_time: Duration::ZERO, weight: Default::default() });
+    let rq = server.server_ref().get_or_create_resource_rq_id(&rqv);
+    for id in 0..n_tasks {
+        let _ = server.server_ref().add_new_tasks(TaskSubmit {
+            tasks: vec![TaskConfiguration { id: TaskId::new(JobId::new(1), JobTaskId::new(10 + id as u32)), resource_rq_id: rq, shared_data_index: 0, task_deps: Default::default(), entry: None }],
+            shared_data: vec![SharedTaskConfiguration { time_limit: None, priority: 1.into(), crash_limit: CrashLimit::default(), body: Rc::from(vec![0u8]) }],
+            adjust_instance_id_and_crash_counters: Default::default(),
+        });
+    }
+    let r = server.schedule(now);
+    let mut assigned: Vec<Value> = Vec::new();
+    for m in server.take_messages(wid) {
+        if let ToWorkerMessage::ComputeTasks(msg) = m {
+            for t in msg.tasks {
+                if t.resource_rq_variant.is_some() {
+                    assigned.push(json!({"t": task_id_num(t.id), "w": wid.as_num()}));
+                }
+            }
+        }
+    }
+    let ts: Vec<Value> = (0..n_tasks).map(|id| json!({"t": 1010 + id as u64, "cpus": 10_000, "gpus": req, "prio": 1, "class": 0})).collect();
+    let w = json!([{"id": wid.as_num(), "total": [40_000, size], "free": [40_000, size]}]);
+    json!({"id": format!("big-{k}-{delta}-{n_tasks}"), "n_workers": 1, "n_classes": 1, "workers": w, "workers_after": w, "tasks": ts, "assigned": assigned, "prefilled": [],
+           "result": r, "pan": 0, "desc": {"size": size, "request": req, "tasks": n_tasks}})
+}
+
 pub fn main(args: &[String]) -> i32 {
     panics::install();
     let arg = |name: &str| -> Option<&str> {
@@ -164,7 +210,8 @@ pub fn main(args: &[String]) -> i32 {
     let mut panics_n = 0u64;
     for _ in 0..n {
         let _ = panics::take();
-        let r = std::panic::catch_unwind(std::panic::AssertUnwindSafe(|| one_instance(&mut rng, thorough)));
+        let big = arg("--tier") == Some("big");
+        let r = std::panic::catch_unwind(std::panic::AssertUnwindSafe(|| if big { big_instance(&mut rng) } else { one_instance(&mut rng, thorough) }));
         match r {
             Ok(v) => {
                 if v["result"] == "done" {
